@@ -10,9 +10,13 @@
    items with ARBITRARY counts written with any digits) = C17_accept_iff_layout_counts, together with
    the number parser on every decimal numeral (C17_parse_number_decimal); the safety theorems for ALL
    byte strings.  Still only tested (extracted [spec_accept] vs implementation vs struct oracle):
-   formats wrapped in one T{} record (FRec), sub-array members / s, p / (N,M) shapes. *)
+   formats wrapped in T{} records (FRec, nested records), sub-array members / s, p / (N,M) shapes.
+   NESTED STRUCT DTYPES (type info = tree of __Pyx_TypeInfo / __Pyx_StructField, checker state = the
+   ctx->head stack of (field, parent_offset) frames): C17_struct_stack_walks_flattened and
+   C17_accept_iff_layout_nested for trees of ANY depth; the code as it is only under the complement of
+   finding nonfirst_substruct_begins_with_struct (C17_accept_iff_layout_nested_as_is_refuted). *)
 From Coq Require Import ZArith List Bool Lia.
-From CyVerif Require Import Lib.CInt Model.M_BufFmt Proof.P_BufFmt Proof.P_BufFmtCount.
+From CyVerif Require Import Lib.CInt Model.M_BufFmt Proof.P_BufFmt Proof.P_BufFmtCount Proof.P_BufFmtTree Proof.P_BufFmtCmp Model.M_MemviewAxes Proof.P_MemviewAxes.
 Import ListNotations.
 Open Scope Z_scope.
 
@@ -107,6 +111,131 @@ Theorem C17_accept_iff_layout_counts : forall fx toks ti isz,
   (check fx (render (FPlain toks)) ti isz = Ok tt <-> spec_accept (FPlain toks) ti isz = true).
 Proof. exact accept_iff_layout_counts. Qed.
 Print Assumptions C17_accept_iff_layout_counts.
+
+(* ---------------- nested struct dtypes (tree-shaped type infos, any depth) ---------------- *)
+(* the struct stack of the checker -- __Pyx_BufFmt_Init's descent, the per-member offset
+   ctx->head->parent_offset + field->offset, and the push / pop loop after each member -- visits
+   exactly the scalar members of the declared struct tree, in order, each at its absolute C offset
+   (sum of the offsetof()s on the path).  deep = true: with the proposed repair, ALL trees Buffer.py
+   can emit (non-empty structs, first member at offset 0, any depth, any other offsets);
+   deep = false: the code as it is, trees in which every struct member that is not the first member
+   of its parent begins with a scalar.  Proof: induction on the tree; invariant: the parent_offset of
+   every frame is the absolute offset of the struct the frame walks *)
+Theorem C17_struct_stack_walks_flattened : forall deep t,
+  twf deep t -> walk deep false t = Ok (flatten t 0).
+Proof. exact walk_flatten. Qed.
+Print Assumptions C17_struct_stack_walks_flattened.
+
+(* for ALL byte strings (T{} records, arrays, malformed input included) the verdict on a nested
+   dtype is the verdict on its flattened member list *)
+Theorem C17_nested_check_is_flat_check : forall fx deep s t isz, twf deep t ->
+  check_tree fx deep false s t isz = check fx s (flat_ti t) isz.
+Proof. exact check_tree_flat. Qed.
+Print Assumptions C17_nested_check_is_flat_check.
+
+(* accept <-> layout for nested struct dtypes of any depth x all plain token lists *)
+Theorem C17_accept_iff_layout_nested : forall fx deep toks t isz,
+  Forall tok_ok toks -> twf deep t ->
+  (check_tree fx deep false (render (FPlain toks)) t isz = Ok tt <->
+   spec_accept (FPlain toks) (flat_ti t) isz = true).
+Proof. exact accept_iff_layout_tree. Qed.
+Print Assumptions C17_accept_iff_layout_nested.
+
+Theorem C17_nested_repaired_parser_terminates_in_bounds : forall deep s t isz, twf deep t ->
+  check_tree fx_all deep false s t isz = Ok tt \/ check_tree fx_all deep false s t isz = Err \/
+  check_tree fx_all deep false s t isz = IntOvf.
+Proof. exact tree_repaired_parser_terminates_in_bounds. Qed.
+Print Assumptions C17_nested_repaired_parser_terminates_in_bounds.
+
+(* the full statement (deep = false, all of twf true) is FALSE for the code as it is: the advance
+   loop pushes one frame and breaks, so OuterA {int a; MidF {Inner inn; int b} m} rejects "4i"
+   (finding nonfirst_substruct_begins_with_struct); the repaired loop accepts it *)
+Theorem C17_accept_iff_layout_nested_as_is_refuted : exists toks t isz,
+  Forall tok_ok toks /\ twf true t /\ spec_accept (FPlain toks) (flat_ti t) isz = true /\
+  check_tree fx_all false false (render (FPlain toks)) t isz = Err /\
+  check_tree fx_all true false (render (FPlain toks)) t isz = Ok tt.
+Proof.
+  exists toks_4i, t_outerA, 16. split; [exact toks_4i_ok|]. split; [exact t_outerA_wf|]. exact no_descent_witness.
+Qed.
+Print Assumptions C17_accept_iff_layout_nested_as_is_refuted.
+
+(* the invariant matters: a checker that takes the sub-struct offset from the grandparent frame
+   ((ctx->head - 1)->parent_offset) rejects the matching buffer of Outer {int a; Mid {int b; Inner inn} m}
+   -- three levels, the middle struct at offset 4 -- which the code accepts *)
+Theorem C17_grandparent_offset_refuted : exists toks t isz,
+  Forall tok_ok toks /\ twf false t /\ spec_accept (FPlain toks) (flat_ti t) isz = true /\
+  check_tree fx_all false true (render (FPlain toks)) t isz = Err /\
+  check_tree fx_all false false (render (FPlain toks)) t isz = Ok tt.
+Proof.
+  exists toks_4i, t_outer, 16. split; [exact toks_4i_ok|]. split; [exact t_outer_wf|]. exact grandparent_witness.
+Qed.
+Print Assumptions C17_grandparent_offset_refuted.
+
+Example C17_nested_nonvacuous :
+  twf false t_outer /\ walk false false t_outer =
+    Ok [(mkleaf 73 4 [], 0); (mkleaf 73 4 [], 4); (mkleaf 73 4 [], 8); (mkleaf 73 4 [], 12)] /\
+  (* depth 4, sub-structs first / middle / last, padding before and after *)
+  walk true false (TStruct 48 [(TStruct 16 [(t_outerA, 0)], 0); (TLeaf (mkleaf 72 1 []), 16);
+                               (TStruct 24 [(TLeaf (mkleaf 82 8 []), 0); (t_inner, 8); (TLeaf (mkleaf 73 2 []), 16)], 24)]) =
+    Ok [(mkleaf 73 4 [], 0); (mkleaf 73 4 [], 4); (mkleaf 73 4 [], 8); (mkleaf 73 4 [], 12); (mkleaf 72 1 [], 16);
+        (mkleaf 82 8 [], 24); (mkleaf 73 4 [], 32); (mkleaf 73 4 [], 36); (mkleaf 73 2 [], 40)].
+Proof. split; [exact t_outer_wf|]. split; vm_compute; reflexivity. Qed.
+
+(* ---------------- __pyx_typeinfo_cmp: Cython memoryview -> typed memoryview ---------------- *)
+(* when the exporter is a Cython memoryview and __pyx_typeinfo_cmp(declared, exporter's) holds, the
+   format string is not parsed.  Repaired comparison (fixh = true), ALL type-info trees (any depth,
+   arrays, packed flags): "equal" implies that the scalar members correspond one to one with the same
+   size, array dimensions and absolute offset, and the same typegroup and signedness except that C char
+   matches any one-byte integer -- i.e. the shortcut never accepts what the format check would reject as a
+   different layout.  (Completeness is not needed: on "not equal" the format string is checked.) *)
+Theorem C17_typeinfo_cmp_sound : forall a b,
+  ticmp true a b = true -> cinfo_compat a b = true.
+Proof. exact ticmp_sound0. Qed.
+Print Assumptions C17_typeinfo_cmp_sound.
+
+(* the code as it is (fixh = false): the "special case for chars" returns a->size == b->size and skips
+   the array dimensions: {int i; char s[3]} and {int i; signed char s} compare equal in both directions
+   (finding memview_typeinfo_cmp_char_skips_array_dims); the repair tells them apart *)
+Theorem C17_typeinfo_cmp_sound_as_is_refuted : exists a b,
+  ticmp false a b = true /\ ticmp false b a = true /\ cinfo_compat a b = false /\
+  ticmp true a b = false /\ ticmp true b a = false.
+Proof.
+  exists ci_B, ci_A. pose proof ticmp_char_array_witness as H. tauto.
+Qed.
+Print Assumptions C17_typeinfo_cmp_sound_as_is_refuted.
+
+(* ---------------- ndim / strides / contiguity (MemviewSliceValidateAndInit) ---------------- *)
+(* model Model/M_MemviewAxes.v: __pyx_check_strides per axis, __pyx_verify_contig, the ndim test, the
+   len == 0 shortcut.  For EVERY ndim, item size, shape and stride vector: a declared C-contiguous type
+   T[:, ..., ::1] accepts exactly the buffers with that many dimensions that are empty or C-contiguous
+   (every dimension with more than one element has stride itemsize * product of the later extents);
+   likewise T[::1, :, ...] and Fortran order; a strided type T[:, ...] tests ndim only *)
+Theorem C17_c_contiguous_type_accepts_iff : forall n isz shape strides,
+  0 < isz -> Forall (fun s => 0 <= s) shape -> length strides = length shape ->
+  (validate_axes (c_axes n) FC isz shape strides = true <->
+   length shape = n /\ (prodz shape = 0 \/ c_contiguous isz shape strides)).
+Proof. exact validate_c_contig_iff. Qed.
+Print Assumptions C17_c_contiguous_type_accepts_iff.
+
+Theorem C17_f_contiguous_type_accepts_iff : forall n isz shape strides,
+  0 < isz -> Forall (fun s => 0 <= s) shape -> length strides = length shape ->
+  (validate_axes (f_axes n) FF isz shape strides = true <->
+   length shape = n /\ (prodz shape = 0 \/ f_contiguous isz shape strides)).
+Proof. exact validate_f_contig_iff. Qed.
+Print Assumptions C17_f_contiguous_type_accepts_iff.
+
+Theorem C17_strided_type_accepts_iff : forall n isz shape strides,
+  validate_axes (repeat AStrided n) FNone isz shape strides = true <-> length shape = n.
+Proof. exact validate_strided_iff. Qed.
+Print Assumptions C17_strided_type_accepts_iff.
+
+Example C17_axes_nonvacuous :
+  validate_axes (c_axes 3) FC 4 [2; 1; 3] [12; 999; 4] = true /\      (* the stride of a length-1 axis is irrelevant *)
+  validate_axes (c_axes 3) FC 4 [2; 2; 3] [24; 12; 4] = true /\
+  validate_axes (c_axes 3) FC 4 [2; 2; 3] [48; 12; 4] = false /\
+  validate_axes (c_axes 2) FC 4 [2; 3] [4; 8] = false /\ validate_axes (f_axes 2) FF 4 [2; 3] [4; 8] = true /\
+  validate_axes (c_axes 2) FC 4 [0; 3] [7; 7] = true /\ validate_axes (c_axes 2) FC 4 [3] [4] = false.
+Proof. repeat split; vm_compute; reflexivity. Qed.
 
 Example C17_counts_nonvacuous :
   decimal 19 = [49; 57] /\ decimal 109 = [49; 48; 57] /\ decimal 2147483647 = [50; 49; 52; 55; 52; 56; 51; 54; 52; 55] /\
